@@ -111,6 +111,25 @@ def twin_stream(seed, n, op='from_data'):
     return out
 
 
+def with_defaultdicts(scens, seed):
+    """replace some str-keyed mappings of the input (at any depth) by `defaultdict(int)` instances: a lookup of an
+    absent key on the caller's own mapping would INSERT it"""
+    r = random.Random(seed)
+    def walk(j):
+        if isinstance(j, list):
+            return [walk(x) for x in j]
+        if isinstance(j, dict):
+            if 'd' in j and all(isinstance(k, str) for k, _ in j['d']) and r.random() < 0.5:
+                return {'map': ['defaultdict:int', [[k, walk(v)] for k, v in j['d']]]}
+            return {k: walk(v) for k, v in j.items()}
+        return j
+    out = []
+    for s in scens:
+        if '"d"' in json.dumps(s.get('val')):
+            out.append(dict(s, val=walk(s['val']), id=s['id'] + 'dd', stream='defaultdict-input'))
+    return out
+
+
 def matrix_stream(seed):
     """C02: value kinds x target kinds x embedding contexts, exhaustive (seed only picks spellings)"""
     out = []
@@ -185,6 +204,8 @@ def nontrivial_conv(sc, iout):
 
 
 def proj_verdict_value(out):
+    if isinstance(out, dict) and 'try' in out:
+        return proj_try_collect(out)
     if isinstance(out, dict) and 'convertError' in out:
         return {'convertError': True}
     if isinstance(out, dict) and 'raises' in out:
@@ -194,7 +215,7 @@ def proj_verdict_value(out):
 
 def proj_try_collect(out):
     # C03 compares verdicts of both passes (tree content is C07's subject)
-    if isinstance(out, dict) and 'try' in out:
+    if isinstance(out, dict) and 'try' in out and 'collect' in out:
         t = out['try']
         c = out['collect']
         return {'try': 'ok' if isinstance(t, dict) and 'ok' in t else t, 'collect': 'tree' if isinstance(c, dict) and 'leak' not in c else c}
@@ -338,7 +359,11 @@ PLUGS = {
                 project=proj_full, oracles=['c08'], disagreement_is_failure=True),
     'C09': dict(streams=lambda seed, tier: conv_stream(seed, sizes(tier, 700, 10000), 'from_data', []) +
                 conv_stream(seed + 1, sizes(tier, 400, 10000), 'try_collect', []) +
-                conv_stream(seed + 2, sizes(tier, 400, 10000), 'roundtrip', []),
+                conv_stream(seed + 2, sizes(tier, 400, 10000), 'roundtrip', []) +
+                gen.scenarios_tagged(seed, sizes(tier, 600, 8000)) + gen.scenarios_shapes(seed, sizes(tier, 300, 4000), op='from_data') +
+                gen.scenarios_construct(seed, sizes(tier, 300, 4000)) +
+                with_defaultdicts(gen.scenarios_tagged(seed + 3, sizes(tier, 400, 5000)) + gen.scenarios_shapes(seed + 3, sizes(tier, 500, 6000), op='from_data') +
+                                  gen.scenarios_conv(seed + 3, sizes(tier, 800, 10000)), seed),
                 project=proj_verdict_value, oracles=['c09'], disagreement_is_failure=False),
     'C11': dict(streams=lambda seed, tier: union_stream(seed, sizes(tier, 1200, 20000)) + twin_stream(seed, sizes(tier, 100, 1500)) +
                 union_stream(seed + 7, sizes(tier, 300, 5000), op='roundtrip'),
